@@ -21,5 +21,5 @@ def build(src, tier):
     w = FT.world_for(src, tier)
     ts = [FT.t_subscribe('event', None), FT.t_subscribe('event', 'sym'), FT.t_subscribe('int', 'lifo'),
           FT.t_subscribe('int', 'fifo'), FT.t_publish(), FT.t_runner_iteration('fifo'), FT.t_runner_iteration('lifo'),
-          FT.t_start(), FT.t_clear()]
+          FT.t_start(), FT.t_clear(), FT.t_fabric_subscribed()]
     return [(w, ts)]
